@@ -146,7 +146,7 @@ func body(c *runner.Ctx, faults bool) {
 	nExec := 1 + c.Choose(3, "executions")
 	var execs []*execution
 	for i := 0; i < nExec; i++ {
-		g := &gen{c: c, w: w, budget: 14, nb: c.Choose(3, "non-null-field") > 0, argVars: c.Choose(3, "argument-variables") == 1}
+		g := &gen{c: c, w: w, budget: 14, nb: c.Choose(3, "non-null-field") > 0, argVars: c.Choose(3, "argument-variables") == 1, unionFrags: c.Choose(3, "union-type-fragments") == 1, grid: c.Choose(3, "list-of-lists") == 1, rootTN: true}
 		root := g.genSet("Query", 0)
 		g.addTwins(root)
 		if c.Choose(3, "directives") == 1 {
